@@ -59,7 +59,7 @@ def replay(prop, path):
         kind = "dbg"
     m = CHECKS.get(prop)
     mod_replay = getattr(sys.modules.get(getattr(m, "__module__", "")), "replay", None)
-    if mod_replay is not None and "engine" not in rec.get("replay", {}):
+    if mod_replay is not None:
         return mod_replay(path)
     binary = build(kind)
     env = dict(common.ENV_BASE)
